@@ -188,8 +188,13 @@ class WMIExperiment(Experiment):
                             self.status = ExperimentStatus.ERROR
                             raise ValueError(f"Gate {gate_name.upper()} {type(gate)} is not performed on coupled qubits.")
             
-        # check that the number of qubits is adequate
-        qubits: Sequence[Particle] = gate.particles()
+        # check that the circuit is not empty
+        if not self.circuit.gates:
+            self.status = ExperimentStatus.ERROR
+            raise ValueError("Circuit does not contain any instructions.")
+
+        # check that the number of qubits is adequate (over all instructions of the circuit)
+        qubits: Sequence[Particle] = self.circuit.particles()
         qubits_index = [q.index for q in qubits]
         if len(qubits) > self.configuration.n_qubits \
         or min(qubits_index) < 0 \
